@@ -8,8 +8,8 @@ def valBytes (v : Val) : Bytes := v.toList
 
 /-- the byte size `reader.Read` returns for a message: the length of its vtproto encoding -/
 def msgSize (table : Bytes) : Msg → Nat
-  | .put k v => (Wire.Command.enc (.mk table 0 (some ⟨k, 0, 0, valBytes v⟩) none [] none none false [] false)).length
-  | .dummy li => (Wire.Command.enc (.mk table 2 none (some li) [] none none false [] false)).length
+  | .put k v => (Wire.Command.enc (.mk table Extracted.cmdTypePut (some ⟨k, 0, 0, valBytes v⟩) none [] none none false [] false)).length
+  | .dummy li => (Wire.Command.enc (.mk table Extracted.cmdTypeDummy none (some li) [] none none false [] false)).length
 
 partial def parsePairs : Nat → List String → Option (List (Bytes × Val))
   | 0, [] => some []
